@@ -116,6 +116,41 @@ func tagHolds(x ssa.Value, blk *ssa.BasicBlock) map[string]bool {
 					out[constant.StringVal(k.Value)] = true
 				}
 			}
+			// the comparison is the last operand of a conjunction kept in a variable
+			// (ok := x != nil && x.StatementType() == T): where that variable is true, so is it
+			if bo.Op == token.EQL {
+				for _, r2 := range *bo.Referrers() {
+					ph, ok := r2.(*ssa.Phi)
+					if !ok {
+						continue
+					}
+					onlyFalse := true
+					for _, e := range ph.Edges {
+						if e == ssa.Value(bo) {
+							continue
+						}
+						if c, ok := e.(*ssa.Const); !ok || c.Value == nil || c.Value.Kind() != constant.Bool || constant.BoolVal(c.Value) {
+							onlyFalse = false
+						}
+					}
+					if !onlyFalse {
+						continue
+					}
+					for _, b2 := range ph.Parent().Blocks {
+						c, neg := condOf(b2)
+						if c != ssa.Value(ph) {
+							continue
+						}
+						succ := b2.Succs[0]
+						if neg {
+							succ = b2.Succs[1]
+						}
+						if succ.Dominates(blk) && len(succ.Preds) == 1 {
+							out[constant.StringVal(k.Value)] = true
+						}
+					}
+				}
+			}
 		}
 	}
 	for _, r := range *refs {
